@@ -244,7 +244,8 @@ def run(ctx: core.Ctx) -> None:
     elif ctx.tier == 'quick':
         plan = [('active', 2), ('attempts1', 1), ('gr', 1), ('passive', 1)]
     else:
-        plan = [('active', 3), ('attempts1', 2), ('gr', 2), ('passive', 2)]
+        # every configuration to 2 deviations first, then a third (reduced menu) on the active one
+        plan = [('active', 2), ('attempts1', 2), ('gr', 2), ('passive', 2), ('active', 3)]
     bound = max(b for _, b in plan)
     ctx.rule = (f'every execution of the default session script (connect, OPEN/KEEPALIVE exchange, 2 UPDATEs in, 1 API announce, idle) '
                 f'over {STEPS} macro steps with <= k deviations from a state-dependent menu (connect refused, EOF, RST, EPIPE, unexpected message '
@@ -252,7 +253,7 @@ def run(ctx: core.Ctx) -> None:
                 f'reload same/changed, shutdown); (configuration, k) plan = {plan}; non-trivial = at least one deviation and a distinct (final FSM, per-socket message count, closed) outcome')
     ctx.assumptions += ['virtual loop delivers data before timers at equal instants', 'kernel-level TCP behaviour is modelled as ordered segments + EOF/RST/EPIPE only']
     pool = mp.Pool(min(16, os.cpu_count() or 1))
-    budget_s = ctx.budget_s or (100 if ctx.tier == 'quick' else 1500)
+    budget_s = ctx.budget_s or (150 if ctx.tier == 'quick' else 2400)
     bound = 0
     try:
         for config_name, bound in plan:
